@@ -214,6 +214,7 @@ outstanding(void)
 // ---- pullers: nng socket or raw fd -------------------------------------------
 typedef struct puller {
 	int        raw;
+	int        late; // nng puller that dials at its first receive letter
 	nng_socket s;
 	int        fd;
 	vp_rd     *rd;
@@ -229,6 +230,12 @@ pull_one(int k)
 	char    who[12];
 	snprintf(who, sizeof(who), "puller %c", 'A' + k);
 	if (!p->raw) {
+		if (p->late) {
+			p->late = 0;
+			H(" dial%c", 'A' + k);
+			VH_OK(nng_dial(p->s, "inproc://c06", NULL, 0));
+			vs_settle();
+		}
 		nng_msg *m  = NULL;
 		int64_t  t0 = vs_now();
 		int      rv = nng_recvmsg(p->s, &m, NNG_FLAG_NONBLOCK);
@@ -343,6 +350,7 @@ typedef struct seqarg {
 	int        buf0;    // initial NNG_OPT_SENDBUF
 	const int *prefix;
 	int        nprefix;
+	int        late;    // inproc: pullers connect at their first receive
 } seqarg;
 
 static int
@@ -457,6 +465,10 @@ run_seq(void *argp)
 		VH_OK(nng_listen(push, "inproc://c06", NULL, 0));
 		for (int k = 0; k < 2; k++) {
 			VH_OK(nng_pull0_open(&PL[k].s));
+			if (a->late) {
+				PL[k].late = 1;
+				continue;
+			}
 			VH_OK(nng_dial(PL[k].s, "inproc://c06", NULL, 0));
 			vs_settle();
 		}
@@ -674,43 +686,14 @@ run_race(void *argp)
 }
 
 // ---- driver ------------------------------------------------------------------
-static double
-explore_seq(const char *name, seqarg *a, long *nexec)
-{
-	vx_cfg c;
-	memset(&c, 0, sizeof(c));
-	c.prop     = "C06";
-	c.scenario = name;
-	c.run      = run_seq;
-	c.arg      = a;
-	c.budget[VB_ENV] = -1;
-	c.total          = 0;
-	vx_stats st;
-	memset(&st, 0, sizeof(st));
-	vx_explore(&c, &st);
-	if (nexec)
-		*nexec = st.executions;
-	return st.wall_s;
-}
-
-static void
-explore_race(const char *name, racearg *a, int p, int sw, int t, int total)
-{
-	vx_cfg c;
-	memset(&c, 0, sizeof(c));
-	c.prop     = "C06";
-	c.scenario = name;
-	c.run      = run_race;
-	c.arg      = a;
-	c.budget[VB_PREEMPT] = p;
-	c.budget[VB_SWITCH]  = sw;
-	c.budget[VB_TIMER]   = t;
-	c.budget[VB_WAKE1]   = 1;
-	c.budget[VB_ENV]     = -1;
-	c.total              = total;
-	c.watchdog_s         = 20;
-	vx_explore(&c, NULL);
-}
+// Throughput differs a lot with machine load (other checks run in parallel),
+// so the thorough tier chooses each depth from the measured execution rate:
+// the largest depth in [dmin, dmax] whose letters^depth fits the scenario's
+// share of the tier budget.  Every started exploration runs to completion.
+static double g_rate = 500; // executions per second, re-measured continuously
+static double g_cap;        // wall seconds this tier may use in total
+static double g_t0left;
+static char   g_depths[400];
 
 static double
 powd(double b, int e)
@@ -721,16 +704,61 @@ powd(double b, int e)
 	return r;
 }
 
-static seqarg S[24];
-static char   SN[24][48];
-static int    ns;
-static void
-add_seq(const char *name, int raw, int kbuf, int body, int depth, int nl,
-    int buf0, const int *prefix, int nprefix)
+static double
+used(void)
 {
-	S[ns] = (seqarg){ raw, kbuf, body, depth, nl, buf0, prefix, nprefix };
-	snprintf(SN[ns], sizeof(SN[ns]), "%s-d%d", name, depth);
-	ns++;
+	return g_t0left - vx_time_left();
+}
+
+static void
+explore_seq(const char *name, seqarg *a, int dmax, int dmin, double share)
+{
+	int d = dmax;
+	while (d > dmin &&
+	    powd(a->nletters, d) / g_rate * 1.25 > share * g_cap)
+		d--;
+	if (powd(a->nletters, d) / g_rate > g_cap - used() && d > dmin)
+		d = dmin;
+	a->depth = d;
+	char nm[64];
+	snprintf(nm, sizeof(nm), "%s-d%d", name, d);
+	snprintf(g_depths + strlen(g_depths), sizeof(g_depths) - strlen(g_depths),
+	    "%s%s", g_depths[0] ? " " : "", nm);
+	vx_cfg c;
+	memset(&c, 0, sizeof(c));
+	c.prop     = "C06";
+	c.scenario = nm;
+	c.run      = run_seq;
+	c.arg      = a;
+	c.budget[VB_ENV] = -1;
+	c.total          = 0;
+	vx_stats st;
+	memset(&st, 0, sizeof(st));
+	vx_explore(&c, &st);
+	if (st.executions >= 300 && st.wall_s > 0.2)
+		g_rate = (double) st.executions / st.wall_s;
+}
+
+static void
+explore_race(racearg *a, int p, int total)
+{
+	char nm[64];
+	snprintf(nm, sizeof(nm), "race-m%d-buf%d-s%d-p%d-t%d", a->mode, a->sendbuf,
+	    a->nsenders, p, total);
+	vx_cfg c;
+	memset(&c, 0, sizeof(c));
+	c.prop     = "C06";
+	c.scenario = nm;
+	c.run      = run_race;
+	c.arg      = a;
+	c.budget[VB_PREEMPT] = p;
+	c.budget[VB_SWITCH]  = 2;
+	c.budget[VB_TIMER]   = 1;
+	c.budget[VB_WAKE1]   = 1;
+	c.budget[VB_ENV]     = -1;
+	c.total              = total;
+	c.watchdog_s         = 20;
+	vx_explore(&c, NULL);
 }
 
 int
@@ -738,6 +766,10 @@ main(int argc, char **argv)
 {
 	vx_init(argc, argv, "C06");
 	int T = vx_is_thorough();
+	g_t0left = vx_time_left();
+	g_cap    = T ? 1000 : 60;
+	if (g_cap > g_t0left - 60)
+		g_cap = g_t0left - 60;
 
 	// seeded start states (forced prefixes): every buffer on the way full
 	// with send buffer 0 / 2, and two senders waiting behind a full pipeline
@@ -746,73 +778,88 @@ main(int argc, char **argv)
 		L_SEND, L_SEND };
 	static const int P_WAIT[]  = { L_SEND, L_SEND, L_SEND, L_SEND, L_ASEND,
 		L_ASEND };
+	// raw, kbuf, body, depth, letters, initial sendbuf, prefix
+	static seqarg s_full0 = { 0, -1, 8, 0, L_N, 0, P_FULL0, 4 };
+	static seqarg s_full2 = { 0, -1, 8, 0, L_N, 0, P_FULL2, 7 };
+	static seqarg s_wait  = { 0, -1, 8, 0, L_N, 0, P_WAIT, 6 };
+	// raw pullers: default kernel buffer (exact wire order, never blocks)
+	// and a tiny one with 3000-byte bodies (back-pressure from the transport)
+	static seqarg s_raw   = { 1, -1, 8, 0, L_N, 0, NULL, 0 };
+	static seqarg s_rawf  = { 1, 0, 3000, 0, L_N, 0, P_FULL0, 4 };
+	static seqarg s_raww  = { 1, 0, 3000, 0, L_N, 0, P_WAIT, 6 };
+	static seqarg s_init  = { 0, -1, 8, 0, L_N, 0, NULL, 0 };
+	static seqarg s_core  = { 0, -1, 8, 0, L_CORE, 1, NULL, 0 };
+	// no puller connected at the start: each dials at its first receive
+	static seqarg s_late  = { 0, -1, 8, 0, L_CORE, 1, NULL, 0, 1 };
 
-	int d1 = T ? 6 : 4; // full alphabet from the initial state
-	int dc = T ? 7 : 5; // core alphabet from the initial state (sendbuf 1)
-	int dp = T ? 5 : 3; // full alphabet after a seeded prefix
-	int d2 = T ? 5 : 3; // raw peers
-	// (1) inproc, two nng pullers
-	add_seq("inproc", 0, -1, 8, d1, L_N, 0, NULL, 0);
-	add_seq("inproc-full0", 0, -1, 8, dp, L_N, 0, P_FULL0, 4);
-	add_seq("inproc-full2", 0, -1, 8, dp, L_N, 0, P_FULL2, 7);
-	add_seq("inproc-waiters", 0, -1, 8, dp, L_N, 0, P_WAIT, 6);
-	// (2) raw pullers: default kernel buffer (exact wire order, never
-	// blocks) and a tiny one with 3000-byte bodies (back-pressure from the
-	// transport)
-	add_seq("raw", 1, -1, 8, d2, L_N, 0, NULL, 0);
-	add_seq("raw-tinybuf-full0", 1, 0, 3000, d2, L_N, 0, P_FULL0, 4);
-	add_seq("raw-tinybuf-waiters", 1, 0, 3000, d2, L_N, 0, P_WAIT, 6);
-	int icore = ns;
-	add_seq("inproc-core", 0, -1, 8, dc, L_CORE, 1, NULL, 0);
-	double rate = 0;
-	for (int i = 0; i < ns; i++) {
-		if (vx_time_left() < 30)
-			break;
-		if (i == icore && T) {
-			// deadline cap: the deepest run only if it fits (whole tier
-			// under ~18 minutes), else one letter less
-			double need = powd(L_CORE, dc) / (rate > 0 ? rate : 500) * 1.3;
-			if (need > vx_time_left() - 700 || need > 600) {
-				dc = 6;
-				S[i].depth = dc;
-				snprintf(SN[i], sizeof(SN[i]), "inproc-core-d%d", dc);
-			}
-		}
-		long   n = 0;
-		double w = explore_seq(SN[i], &S[i], &n);
-		if (i == 0 && w > 0)
-			rate = (double) n / w;
+	if (!T) {
+		explore_seq("inproc-full0", &s_full0, 3, 3, 1);
+		explore_seq("inproc-full2", &s_full2, 3, 3, 1);
+		explore_seq("inproc-waiters", &s_wait, 3, 3, 1);
+		explore_seq("raw", &s_raw, 3, 3, 1);
+		explore_seq("raw-tinybuf-full0", &s_rawf, 3, 3, 1);
+		explore_seq("raw-tinybuf-waiters", &s_raww, 3, 3, 1);
+		explore_seq("inproc-late", &s_late, 4, 4, 1);
+		explore_seq("inproc", &s_init, 4, 4, 1);
+		explore_seq("inproc-core", &s_core, 5, 5, 1);
+	} else {
+		explore_seq("inproc-full0", &s_full0, 5, 4, 0.06);
+		explore_seq("inproc-full2", &s_full2, 5, 4, 0.06);
+		explore_seq("inproc-waiters", &s_wait, 5, 4, 0.06);
+		explore_seq("raw", &s_raw, 5, 4, 0.04);
+		explore_seq("raw-tinybuf-full0", &s_rawf, 5, 4, 0.04);
+		explore_seq("raw-tinybuf-waiters", &s_raww, 5, 4, 0.04);
+		explore_seq("inproc-late", &s_late, 6, 5, 0.05);
 	}
 
-	// (3) schedules
+	// (3) schedules: blocking sender(s) || puller becoming ready.
+	// {sendbuf, mode, senders}; sizes measured on this tree (executions):
+	// m0 p1/t2 1.5 k, p2/t3 37 k; m1 p1/t1 0.2 k, p1/t2 10-14 k; m2 p1/t2 15 k
 	static racearg RC[] = { { 0, 0, 1 }, { 1, 0, 1 }, { 0, 1, 1 }, { 1, 1, 1 },
-		{ 0, 2, 1 }, { 0, 0, 2 }, { 1, 0, 2 } };
-	// total deviations per scenario (quick / thorough); the dialing ones
-	// have ~4x more scheduling points in the window
-	static const int RQ[] = { 2, 2, 1, 1, 0, 0, 0 };
-	static const int RT[] = { 3, 3, 2, 2, 2, 3, 3 };
-	for (int i = 0; i < 7; i++) {
-		char nm[48];
-		int  tot = T ? RT[i] : RQ[i];
-		if (tot == 0)
-			continue;
-		if (vx_time_left() < 30)
-			break;
-		snprintf(nm, sizeof(nm), "race-m%d-buf%d-s%d", RC[i].mode,
-		    RC[i].sendbuf, RC[i].nsenders);
-		explore_race(nm, &RC[i], T ? 2 : 1, 2, 1, tot);
+		{ 0, 2, 1 }, { 1, 0, 2 } };
+	if (!T) {
+		explore_race(&RC[0], 1, 2);
+		explore_race(&RC[1], 1, 2);
+		explore_race(&RC[2], 1, 1);
+		explore_race(&RC[3], 1, 1);
+	} else {
+		double rr = g_rate * 0.7; // schedule runs are a little slower
+		for (int i = 0; i < 6; i++) {
+			int    m0   = RC[i].mode == 0;
+			double big  = (m0 ? 40000.0 : 200000.0) * RC[i].nsenders;
+			double mid  = (m0 ? 3000.0 : 25000.0) * RC[i].nsenders;
+			double room = 0.07 * g_cap;
+			if (big / rr < room)
+				explore_race(&RC[i], 2, 3);
+			else if (mid / rr < room)
+				explore_race(&RC[i], 2, 2);
+			else
+				explore_race(&RC[i], 1, m0 ? 2 : 1);
+		}
+		// the two deepest enumerations get what is left
+		double left = (g_cap - used()) / g_cap;
+		explore_seq("inproc", &s_init, 6, 5, left * 0.45);
+		left = (g_cap - used()) / g_cap;
+		explore_seq("inproc-core", &s_core, 7, 6, left * 0.9);
 	}
 
 	vx_note("alphabet",
 	    "%d letters: send(tag,NONBLOCK) recvA recvB asend(aio, 10 ms timeout, "
-	    "2 slots) sendbuf(0|1|2) sleep(20 ms); depth %d from the initial "
-	    "state (inproc), depth %d with the %d-letter core alphabet (no sleep, "
-	    "no sendbuf 2), depth %d after 3 seeded prefixes, depth %d raw / raw "
-	    "tiny-kernel-buffer; final drain",
-	    L_N, d1, dc, L_CORE, dp, d2);
+	    "2 slots) sendbuf(0|1|2) sleep(20 ms); 'inproc-core' uses the first "
+	    "%d (no sleep, no sendbuf 2, initial sendbuf 1); seeded prefixes: "
+	    "pipeline full with sendbuf 0 / 2, two waiting senders; 'late' = the "
+	    "pullers dial at their first receive letter (core alphabet); raw = two raw "
+	    "PULL peers on socket:// (default and minimal SO_SNDBUF with 3000-byte "
+	    "bodies); every history ends with a final drain",
+	    L_N, L_CORE);
+	vx_note("depths", "%s (thorough depths are chosen from the measured "
+	    "execution rate so that the tier stays under ~%d s)", g_depths,
+	    (int) g_cap);
 	vx_note("schedules",
-	    "blocking send(s) (SENDTIMEO 50) || puller receiving/dialing, sendbuf "
-	    "0/1, preempt<=%d switch<=2 timer<=1", T ? 2 : 1);
+	    "blocking send(s) (SENDTIMEO 50) || puller receiving (m0) / dialing "
+	    "then receiving (m1) / both (m2), sendbuf 0/1; budgets in the "
+	    "scenario names (p = preemptions, t = total deviations), switch<=2 "
+	    "timer<=1 wake1<=1");
 	vx_note("oracle",
 	    "invariants: phantom, duplicate, order (happens-before per "
 	    "connection), ownership on EAGAIN/ETIMEDOUT, result set, conservation "
